@@ -502,6 +502,15 @@ class Interp:
                 except Exception as e:
                     res.append('!' + type(e).__name__)
             fr.obs.append(['bfmany', prefix, digest(res)])
+        elif op == 'qx':
+            # a query whose answer depends on the schedule (it looks at what
+            # another thread is working on): executed, answer not compared
+            try:
+                if self.mode == 'real':
+                    B.query(st[1], sb.p(st[2]), 'METADATA', None)
+            except OSError:
+                pass
+            fr.obs.append(['qx', st[1], st[2]])
         elif op == 'signal':
             # user-level synchronisation between threads of one build
             lk = self.signal_lock(st[1])
